@@ -12,12 +12,15 @@ from fractions import Fraction as F
 from pv import gallina as G
 from pv.canon import T
 from props import _c15_vk as VK
+from props import _c15_live as LIVE
 
 ID = "C15"
 COQ_REQUIRE = "C15.Run"
 SHARD = 120
 CASE_TIMEOUT = 600
-RULE = ("one virtual process (child / non-child / gone-before-the-call) or 1-6 of them; the exit instant is placed before the "
+RULE = ("26 LIVE cases first (real forked children / real sh children of psutil.Popen under the running kernel: exit 0/1/255, SIGTERM, SIGKILL, "
+        "SIGSEGV with core flag, SIGUSR1, stopped+continued, zombie, reaped behind psutil's back, a non-child reaped by its own parent, a PID "
+        "that never existed, wait_procs with a survivor): kernel answers vs Spec.v, real-time outcomes vs model and oracle. Then virtual cases: one virtual process (child / non-child / gone-before-the-call) or 1-6 of them; the exit instant is placed before the "
         "call, exactly on / 10 us before / 10 us after a polling instant (instants 0, 1, 3, 7, ..., 511, 911, 1311... x 0.1 ms) "
         "and on / around the deadline, or never; timeouts None, 0, negative, on/around polling instants, 5 ms - 2 s; exit codes "
         "{0,1,2,127,255}, signals {1,6+core,9,15,34,64}; EINTR at waitpid calls {0}, {1}, {0,1}, {k}, {2,3}, 3 random calls, a blocking "
@@ -33,7 +36,8 @@ RULE = ("one virtual process (child / non-child / gone-before-the-call) or 1-6 o
         "least one poll or a returned status; distinct = distinct canonical case hash.")
 TRUSTED = ["correspondence harness props/C15.py + props/_c15_vk.py (virtual kernel, virtual clock, fake /proc, set-order control by PID choice)",
            "the Python transcription of the property oracle (_spec_wait/_spec_procs in props/_c15_vk.py), used on the implementation's observations",
-           "waitpid(2) status word layout and kill(pid,0) semantics transcribed in coq/C15/Spec.v"]
+           "waitpid(2) status word layout and kill(pid,0) semantics transcribed in coq/C15/Spec.v -- compared on every run with the running "
+           "kernel by the live cases (props/_c15_live.py); EINTR answers cannot be produced by the real os.waitpid (PEP 475) and stay trusted"]
 ASSUMPTIONS = ["virtual time: a call costs nothing, only sleep() and a blocking waitpid() advance the clock; wall-clock and scheduler latency are not modelled",
                "a blocking waitpid returns at whichever comes first, the exit or the scheduled signal (tie: EINTR); a non-blocking call is interrupted at once",
                "no PID reuse during a wait; is_running() is answered from the same virtual process table",
@@ -122,10 +126,14 @@ def _wait_cls(p, ops):
 
 
 def gen_cases(rng, tier):
-    n_wait = {"quick": 450, "thorough": 8000, "search": 1200}[tier]
-    n_procs = {"quick": 105, "thorough": 1500, "search": 250}[tier]
+    n_wait = {"quick": 400, "thorough": 8000, "search": 1200}[tier]
+    n_procs = {"quick": 90, "thorough": 1500, "search": 250}[tier]
     perm_max = {"quick": 3, "thorough": 4, "search": 3}[tier]
     cases = []
+    # live: real children under the running kernel (validates the virtual kernel of Spec.v; see props/_c15_live.py)
+    if tier != "search":
+        for name in LIVE.SCEN:
+            cases.append({"kind": "live", "cls": "live-" + LIVE.SCEN[name][0], "scenario": name})
     # exhaustive status decoding
     for c in range(256):
         cases.append({"kind": "decode", "cls": "decode", "status": ["code", c]})
@@ -373,8 +381,27 @@ def gproc(p):
     return "(mk_proc %s %s %s %s [%s])" % (G.z(p["pid"]), kind, gopt(p["exit"]), gstatus(p["status"]), "; ".join(ei))
 
 
+def _live_virtual(case):
+    """the virtual scenario (an ordinary wait / popen / procs case) that mirrors a live scenario"""
+    group, virt = LIVE.SCEN[case["scenario"]]
+    if group in ("wait", "popen"):
+        return {"kind": group, "proc": virt["proc"], "start": q(0), "ops": virt["ops"]}
+    if group == "procs":
+        return dict(virt, kind="procs", start=q(0))
+    return None
+
+
 def coq_term(case):
     k = case["kind"]
+    if k == "live":
+        group, virt = LIVE.SCEN[case["scenario"]]
+        if group != "probe":
+            return coq_term(_live_virtual(case))
+        p = virt["proc"]
+        st = p["status"]
+        alt = [gstatus(st[:2] + [False]), gstatus(st[:2] + [True])] if st[0] == "sig" else [gstatus(st)] * 2
+        return "JL [run_kprobe %s (0 # 1)%%Q false; run_kprobe %s (2 # 1)%%Q false; run_kprobe %s (2 # 1)%%Q true; JL [JZ (k_status %s); JZ (k_status %s)]]" % (
+            gproc(p), gproc(p), gproc(p), alt[0], alt[1])
     if k == "decode":
         s = case["status"]
         st = s[1] * 256 if s[0] == "code" else s[1] + (128 if s[2] else 0)
@@ -418,6 +445,26 @@ def coq_term(case):
 
 def coq_struct(case, raw):
     k = case["kind"]
+    if k == "live":
+        group, virt = LIVE.SCEN[case["scenario"]]
+        if group == "probe":
+            return {"model": {"cats": []}, "spec": None,
+                    "probes": {"running": raw[0][:3], "ended": raw[1][:3], "reaped": raw[2][:3], "words": raw[3], "decoded": raw[0][4]}}
+        v = _live_virtual(case)
+        st = coq_struct(v, raw)
+        if group == "wait":
+            cats = [LIVE.cat(o[0]) for o in st["model"]["ops"]]
+        elif group == "popen":
+            cats, j = [], 0
+            for o in v["ops"]:
+                if o[0] in ("advance", "reuse", "call"):
+                    continue
+                cats.append(LIVE.cat(raw[j][0]) if o[0] == "wait" else raw[j][0])
+                j += 1
+        else:
+            m = st["model"]
+            cats = [m["exc"], m["gone"], m["alive"], m["rc"]]
+        return {"model": {"cats": cats}, "spec": None}
     if k == "decode":
         return {"model": raw[0], "status_word": raw[1], "spec": T("Int", raw[2])}
     if k == "wait":
@@ -456,6 +503,12 @@ def judge(case, coq, impl):
     k = case["kind"]
     if k == "decode":
         return default_judge(None, case, coq, impl)
+    if k == "live":
+        if impl.get("fails"):
+            return Verdict("violation", "live (%s): %s" % (case["scenario"], "; ".join(impl["fails"])))
+        if impl["cats"] != coq["model"]["cats"]:
+            return Verdict("corr", "live (%s): real outcomes %r, model %r" % (case["scenario"], impl["cats"], coq["model"]["cats"]))
+        return Verdict("ok")
     if _oof(coq["model"]):
         raise RuntimeError("model ran out of fuel on %r" % (case,))
     if isinstance(impl, dict) and impl.get("t") in ("Timeout", "WorkerDied"):
@@ -496,7 +549,7 @@ def judge(case, coq, impl):
 
 
 def nontrivial(case, coq, impl):
-    if case["kind"] == "decode":
+    if case["kind"] in ("decode", "live"):
         return True
     if case["kind"] == "popen":
         return True
@@ -508,6 +561,9 @@ def nontrivial(case, coq, impl):
 # ------------------------------------------------------------------ implementation side
 def impl_run(case, coq, env):
     k = case["kind"]
+    if k == "live":
+        r = LIVE.run(case, coq, env)
+        return {"cats": r["cats"], "fails": r["fails"]}
     if k == "decode":
         return VK.run_decode(coq["status_word"])
     if k == "wait":
@@ -550,7 +606,7 @@ MANIFEST = {
             "spec_wait / spec_procs that the harness applies to the implementation are theorems of the model's runs. The model is tied to the code by "
             "running the real psutil over a virtual kernel/clock on placements of the exit instant on and around every polling instant and the deadline "
             "and comparing outcome, every sleep() argument, the return instant and the waitpid-call count.",
-    "note": "Not stated: termination of wait_procs without a timeout. Trusted: Coq kernel + vm_compute; hand-written model coq/C15/Model.v (tied by the correspondence run only); kernel semantics in "
+    "note": "The virtual kernel of Spec.v is checked against the running kernel on every run (live cases). Not stated: termination of wait_procs without a timeout. Trusted: Coq kernel + vm_compute; hand-written model coq/C15/Model.v (tied by the correspondence run only); kernel semantics in "
             "coq/C15/Spec.v; harness (virtual kernel/clock, fake /proc, Python transcription of the oracle); CPython, IEEE doubles. "
             "Wall-clock behaviour is outside the model.",
 }
